@@ -102,6 +102,7 @@ def with_opts(scen, rng, aux_ok=True):
         if C["vkind"] == "builtin":
             o["bval"] = [2, 4, o["npts"] if o["npts"] in (1, 2, 4, 8) else 2][k % 3]
             o["vobs"] = bool(k % 2) and o["bval"] <= 4
+            o["vparam"] = bool((k // 2) % 2)          # the validation loss owns a parameter generator
         cases.append(dict(C=C, opt=o))
     return cases
 
@@ -161,6 +162,7 @@ def run(pid, tier, seed, *, select, extra_cases, rule, assumptions, level="model
                      with_aux=sum(1 for r in recs if r["case"]["opt"].get("aux", "none") != "none"),
                      sharded_loop=sum(1 for r in recs if r["case"]["opt"].get("shard")),
                      partial_leaf_faults=sum(1 for r in recs if r["case"]["opt"].get("partial")),
+                     validation_with_own_param_generator=sum(1 for r in recs if r["case"]["opt"].get("vparam")),
                      pde_losses=sum(1 for r in recs if r["case"]["opt"].get("lkind", "ode") != "ode"))
         for k in (needs or []):
             if not stats.get(k):
